@@ -63,6 +63,7 @@ type accessTrace struct {
 	Pins   []pinJ     `json:"pins"`
 	Unsat  bool       `json:"unsat"`
 	Events []accEvent `json:"events"`
+	Slack  int        `json:"slack"` // extra end-detecting reads per poll (a poll that drives the scan several times)
 }
 
 func compactEvents(log []Event) []accEvent {
@@ -401,6 +402,19 @@ func replayRegion(args []string) {
 								continue
 							}
 							out.Trace("access", accessTrace{ID: fmt.Sprintf("%s#s%d-%s-%s%d", id, si, kind, mode, bs), Q: q, Pins: fixPins(rc.Pins), Unsat: rc.Unsat, Events: compactEvents(sh.Log)})
+							// the same clause under LIMIT (an offset far beyond the result, a short slice) and under ORDER BY:
+							// skipping and ending early never read outside the envelope either
+							if kind == "select" && bs == bsizes[0] && (c.tier == "thorough" || idx%3 == int((envSeed()+1)%3)) {
+								for li, suffix := range []string{" limit 40, 5", " limit 1, 2", " order by value desc limit 2"} {
+									ol, shl := RunOn(q+suffix, pairs, RunOpts{Mode: mode, BSize: bs, Cache: true})
+									out.Stats.Evaluations++
+									out.Stats.bump("limited-access-runs")
+									if ol.Phase != "done" {
+										continue
+									}
+									out.Trace("access", accessTrace{ID: fmt.Sprintf("%s#s%d-%s-%s%d-l%d", id, si, kind, mode, bs, li), Q: q + suffix, Pins: fixPins(rc.Pins), Unsat: rc.Unsat, Events: compactEvents(shl.Log), Slack: 1})
+								}
+							}
 							// the same statement with one of its first storage calls failing (cursor creation, the
 							// positioning Seek, a Get): whatever it does next, it reads nothing outside the envelope
 							if si == 0 && kind == "select" && bs == bsizes[0] && (c.tier == "thorough" || idx%3 == int(envSeed()%3)) {
